@@ -21,6 +21,7 @@ package roaring
 //@   requires wfArrN(c)
 //@   modifies c.flags, c.pointer, c.len, c.cap, c.data, c.typeID, c.n, c.$arr, c.$runs, c.$bm, elems(c.$arr), elems(c.$runs), elems(c.$bm)
 //@   ensures result != nil ==> (result.$arr.ref == 0 || result.$arr.ref == old(c.$arr.ref) || fresh(result.$arr)) && (result.$runs.ref == 0 || result.$runs.ref == old(c.$runs.ref) || fresh(result.$runs)) && (result.$bm.ref == 0 || result.$bm.ref == old(c.$bm.ref) || fresh(result.$bm))
+//@   ensures result == nil || result == c || fresh(result)
 //@   ensures result != nil && wfBm(result) && result.n == old(c.n)
 //@   ensures forall x :: u16(x) ==> (memBm(result.$bm, x) <==> old(memArr(c.$arr, x)))
 //@   ensures (old(c.flags) & 2) != 0 ==> fresh(result) && result.flags == 0
@@ -37,6 +38,7 @@ package roaring
 //@   requires wfArrN(c)
 //@   modifies c.flags, c.pointer, c.len, c.cap, c.data, c.typeID, c.n, c.$arr, c.$runs, c.$bm, elems(c.$arr), elems(c.$runs), elems(c.$bm)
 //@   ensures result0 != nil ==> (result0.$arr.ref == 0 || result0.$arr.ref == old(c.$arr.ref) || fresh(result0.$arr)) && (result0.$runs.ref == 0 || result0.$runs.ref == old(c.$runs.ref) || fresh(result0.$runs)) && (result0.$bm.ref == 0 || result0.$bm.ref == old(c.$bm.ref) || fresh(result0.$bm))
+//@   ensures result0 == nil || result0 == c || fresh(result0)
 //@   ensures result0 != nil
 //@   ensures result1 <==> !old(memArr(c.$arr, v))
 //@   ensures !result1 ==> result0 == c && result0.n == old(c.n) && c.$arr == old(c.$arr) && unchanged(c.$arr) && c.typeID == 1
@@ -55,6 +57,7 @@ package roaring
 //@   requires wfArrN(c)
 //@   modifies c.flags, c.pointer, c.len, c.cap, c.data, c.typeID, c.n, c.$arr, c.$runs, c.$bm, elems(c.$arr), elems(c.$runs), elems(c.$bm)
 //@   ensures result0 != nil ==> (result0.$arr.ref == 0 || result0.$arr.ref == old(c.$arr.ref) || fresh(result0.$arr)) && (result0.$runs.ref == 0 || result0.$runs.ref == old(c.$runs.ref) || fresh(result0.$runs)) && (result0.$bm.ref == 0 || result0.$bm.ref == old(c.$bm.ref) || fresh(result0.$bm))
+//@   ensures result0 == nil || result0 == c || fresh(result0)
 //@   ensures result1 <==> old(memArr(c.$arr, v))
 //@   ensures !result1 ==> result0 == c && result0.n == old(c.n) && c.$arr == old(c.$arr) && unchanged(c.$arr) && c.typeID == 1
 //@   ensures result1 && old(c.n) == 1 ==> result0 == nil
@@ -77,19 +80,21 @@ package roaring
 //@   ensures (old(c.flags) & 2) != 0 ==> fresh(result) && result.flags == 0 && c.typeID == 2 && c.$bm == old(c.$bm) && unchanged(c.$bm)
 //@   ensures (old(c.flags) & 2) == 0 ==> result == c
 //@   ensures result != nil ==> (result.$arr.ref == 0 || result.$arr.ref == old(c.$arr.ref) || fresh(result.$arr)) && (result.$runs.ref == 0 || result.$runs.ref == old(c.$runs.ref) || fresh(result.$runs)) && (result.$bm.ref == 0 || result.$bm.ref == old(c.$bm.ref) || fresh(result.$bm))
+//@   ensures result == nil || result == c || fresh(result)
 //@   modifies c.typeID, c.flags, c.$arr, c.n, c.len, c.cap, c.pointer, c.data
 
 // bitmapRemove: removes exactly v; the last value leaves a nil container; at
 // ArrayMaxSize the container is converted to an array.
 //@ contract (*Container).bitmapRemove props C01,C02,C03
-//@   requires wfBm(c) && 1 <= c.n && c.n <= 65536
+//@   requires wfBm(c) && 1 <= c.n && c.n < 2147483647
 //@   modifies c.flags, c.pointer, c.len, c.cap, c.data, c.typeID, c.n, c.$arr, c.$runs, c.$bm, elems(c.$arr), elems(c.$runs), elems(c.$bm)
 //@   ensures result0 != nil ==> (result0.$arr.ref == 0 || result0.$arr.ref == old(c.$arr.ref) || fresh(result0.$arr)) && (result0.$runs.ref == 0 || result0.$runs.ref == old(c.$runs.ref) || fresh(result0.$runs)) && (result0.$bm.ref == 0 || result0.$bm.ref == old(c.$bm.ref) || fresh(result0.$bm))
+//@   ensures result0 == nil || result0 == c || fresh(result0)
 //@   ensures result1 <==> old(memBm(c.$bm, v))
 //@   ensures !result1 ==> result0 == c && result0.n == old(c.n) && c.$bm == old(c.$bm) && unchanged(c.$bm) && c.typeID == 2
 //@   ensures result1 && old(c.n) == 1 ==> result0 == nil
 //@   ensures result1 && old(c.n) > 1 ==> result0 != nil && result0.n == old(c.n) - 1 && (wfBm(result0) || wfArrN(result0))
-//@   ensures result0 != nil ==> !mem(result0, v)
+//@   ensures result0 != nil ==> u16(v) && !mem(result0, v)
 //@   ensures result0 != nil ==> (forall x :: u16(x) && x != v ==> (mem(result0, x) <==> old(memBm(c.$bm, x))))
 //@   ensures (old(c.flags) & 2) != 0 && result1 && result0 != nil ==> fresh(result0)
 
@@ -99,6 +104,7 @@ package roaring
 //@   requires wfRuns(c) && 0 <= c.n && c.n < 2147483647 && (len(c.$runs) == 0 ==> c.n == 0)
 //@   modifies c.flags, c.pointer, c.len, c.cap, c.data, c.typeID, c.n, c.$arr, c.$runs, c.$bm, elems(c.$arr), elems(c.$runs), elems(c.$bm)
 //@   ensures result0 != nil ==> (result0.$arr.ref == 0 || result0.$arr.ref == old(c.$arr.ref) || fresh(result0.$arr)) && (result0.$runs.ref == 0 || result0.$runs.ref == old(c.$runs.ref) || fresh(result0.$runs)) && (result0.$bm.ref == 0 || result0.$bm.ref == old(c.$bm.ref) || fresh(result0.$bm))
+//@   ensures result0 == nil || result0 == c || fresh(result0)
 //@   ensures result0 != nil && isRun(result0)
 //@   ensures result1 <==> !old(memRuns(c.$runs, v))
 //@   ensures !result1 ==> result0 == c && result0.n == old(c.n) && c.$runs == old(c.$runs) && unchanged(c.$runs) && c.typeID == 3
@@ -112,9 +118,10 @@ package roaring
 
 // runRemove: removes exactly v from a run container (drop, shrink or split a run).
 //@ contract (*Container).runRemove props C01,C02,C03
-//@   requires wfRuns(c) && 1 <= c.n && c.n <= 65536
+//@   requires wfRuns(c) && 1 <= c.n && c.n < 2147483647
 //@   modifies c.flags, c.pointer, c.len, c.cap, c.data, c.typeID, c.n, c.$arr, c.$runs, c.$bm, elems(c.$arr), elems(c.$runs), elems(c.$bm)
 //@   ensures result0 != nil ==> (result0.$arr.ref == 0 || result0.$arr.ref == old(c.$arr.ref) || fresh(result0.$arr)) && (result0.$runs.ref == 0 || result0.$runs.ref == old(c.$runs.ref) || fresh(result0.$runs)) && (result0.$bm.ref == 0 || result0.$bm.ref == old(c.$bm.ref) || fresh(result0.$bm))
+//@   ensures result0 == nil || result0 == c || fresh(result0)
 //@   ensures result1 <==> old(memRuns(c.$runs, v))
 //@   ensures !result1 ==> result0 == c && result0.n == old(c.n) && c.$runs == old(c.$runs) && unchanged(c.$runs) && c.typeID == 3
 //@   ensures result1 && old(c.n) == 1 ==> result0 == nil
@@ -127,15 +134,21 @@ package roaring
 //@   ensures result0 != nil ==> (forall x :: u16(x) && x != v && old(memRuns(c.$runs, x)) ==> memRuns(result0.$runs, x))
 
 // wfMut: representation well-formed and n coherent where the kernels rely on it.
-//@ spec wfMut(c *Container) = (wfArrN(c) || (wfBm(c) && 1 <= c.n && c.n <= 65536) || (wfRuns(c) && 0 <= c.n && c.n <= 65536 && (len(c.$runs) == 0 ==> c.n == 0)))
+// (upper bounds on n and on the number of runs are not inductive without the
+// cardinality argument n == |set| <= 65536; they are kept out of wfMut and stated,
+// loosely, as the separate precondition roomOK)
+//@ spec wfMut(c *Container) = (wfArrN(c) || (wfBm(c) && 1 <= c.n) || (isRun(c) && sortedRuns(c.$runs) && 0 <= c.n))
+//@ spec roomOK(c *Container) = c.n < 2147483646 && len(c.$runs) < 2147483646 && (isRun(c) && len(c.$runs) == 0 ==> c.n == 0)
 
 // add / remove: the dispatchers inherit the kernel contracts: exactly v changes,
 // the `changed` result is exact and n moves by exactly one when it is true.
 //@ contract (*Container).add props C01,C02,C03
-//@   requires c == nil || wfMut(c)
+//@   requires c == nil || (wfMut(c) && roomOK(c))
 //@   modifies c.flags, c.pointer, c.len, c.cap, c.data, c.typeID, c.n, c.$arr, c.$runs, c.$bm, elems(c.$arr), elems(c.$runs), elems(c.$bm)
 //@   ensures newC != nil ==> (newC.$arr.ref == 0 || newC.$arr.ref == old(c.$arr.ref) || fresh(newC.$arr)) && (newC.$runs.ref == 0 || newC.$runs.ref == old(c.$runs.ref) || fresh(newC.$runs)) && (newC.$bm.ref == 0 || newC.$bm.ref == old(c.$bm.ref) || fresh(newC.$bm))
+//@   ensures newC == nil || newC == c || fresh(newC)
 //@   ensures newC != nil && mem(newC, v)
+//@   ensures wfMut(newC)
 //@   ensures added <==> !old(mem(c, v))
 //@   ensures c != nil ==> newC.n == old(c.n) + (added ? 1 : 0)
 //@   ensures c == nil ==> newC.n == 1
@@ -148,15 +161,17 @@ package roaring
 // (n == 1 means a singleton: the part of n-coherence, n == |set|, that returning
 // nil for the last value relies on; it is a precondition here, established by
 // the +1/-1 postconditions of the kernels along any history that starts coherent.)
-//@   requires c == nil || (wfMut(c) && c.n >= 1)
+//@   requires c == nil || (wfMut(c) && roomOK(c) && c.n >= 1)
 //@   requires isBm(c) && c.n == 1 ==> (forall x, y :: u16(x) && 0 <= y && y < 65536 && memBm(c.$bm, x) && memBm(c.$bm, y) ==> x == y)
 //@   requires isRun(c) && c.n == 1 ==> len(c.$runs) == 1 && c.$runs[0].start == c.$runs[0].last
 //@   modifies c.flags, c.pointer, c.len, c.cap, c.data, c.typeID, c.n, c.$arr, c.$runs, c.$bm, elems(c.$arr), elems(c.$runs), elems(c.$bm)
 //@   ensures newC != nil ==> (newC.$arr.ref == 0 || newC.$arr.ref == old(c.$arr.ref) || fresh(newC.$arr)) && (newC.$runs.ref == 0 || newC.$runs.ref == old(c.$runs.ref) || fresh(newC.$runs)) && (newC.$bm.ref == 0 || newC.$bm.ref == old(c.$bm.ref) || fresh(newC.$bm))
+//@   ensures newC == nil || newC == c || fresh(newC)
 //@   ensures removed <==> old(mem(c, v))
-//@   ensures !removed ==> newC == c
+//@   ensures !removed ==> newC == c && (c != nil ==> c.n == old(c.n))
 //@   ensures removed && old(c.n) == 1 ==> newC == nil
 //@   ensures removed && old(c.n) > 1 ==> newC != nil && newC.n == old(c.n) - 1
+//@   ensures newC != nil ==> wfMut(newC)
 //@   ensures !mem(newC, v)
 //@   ensures forall x :: u16(x) && mem(newC, x) ==> old(mem(c, x))
 //@   ensures forall x :: u16(x) && x != v && old(mem(c, x)) ==> mem(newC, x)
